@@ -85,7 +85,16 @@ def _case(draw):
                "dct": st.lists(st.tuples(_key, _lit()), max_size=3, unique_by=lambda kv: repr(kv[0])).map(
                    lambda v: ["d", [list(x) for x in v]]),
                "anyv": _lit(), "sub": _sub(), "subs": st.lists(_sub(), max_size=2).map(lambda v: ["l", v]),
-               "prec": _num, "optn": st.sampled_from([["n"], ["n"], ["f", "2.5"]]), "opts": st.sampled_from([["n"], ["n"], ["s", "y"]])}
+               "prec": _num, "optn": st.sampled_from([["n"], ["n"], ["f", "2.5"]]), "opts": st.sampled_from([["n"], ["n"], ["s", "y"]]),
+               # dicts one edit away from the (non-empty) default: a key renamed with value None, a key dropped, a value changed
+               "cfgd": st.sampled_from([["d", [[["s", "fmt"], ["s", "png"]], [["s", "quality"], ["n"]]]],
+                                        ["d", [[["s", "fmt"], ["s", "png"]]]],
+                                        ["d", [[["s", "fmt"], ["s", "png"]], [["s", "dpi"], ["n"]]]],
+                                        ["d", [[["s", "fmt"], ["n"]], [["s", "dpi"], ["i", 72]]]],
+                                        ["d", [[["s", "a"], ["n"]], [["s", "b"], ["n"]]]],
+                                        ["d", [[["s", "fmt"], ["s", "png"]], [["s", "dpi"], ["i", 72]], [["s", "x"], ["n"]]]]]),
+               "cfgl": st.sampled_from([["l", [["d", [[["s", "j"], ["n"]]]], ["i", 2]]], ["l", [["d", [[["s", "k"], ["i", 1]]]], ["n"]]],
+                                        ["l", [["d", [[["s", "k"], ["n"]]]], ["i", 2]]]])}
         state = draw(st.fixed_dictionaries({}, optional=opt))
     elif cls == "Pos":
         state = draw(st.fixed_dictionaries({"num": st.one_of(_num, _num, st.just(["n"]))}, optional={
